@@ -131,7 +131,7 @@ func runC09(r *vk.Run) {
 	}
 	r.SetExtra("calibration", map[string]any{"msg_label": env0.Msg, "unwrap_keeps_label": env0.UnwrapKeeps})
 
-	r.Phase("windows", r.N(6000, 150000), func(c *vk.Case) {
+	r.Phase("windows", r.N(6000, 1200000), func(c *vk.Case) {
 		rng := c.Rng
 		recs := genWindowRecs(rng, rng.Range(3, 24))
 		env := &MEnv{Recs: recs, Msg: env0.Msg, UnwrapKeeps: env0.UnwrapKeeps, CmpFalse: env0.CmpFalse, CmpFalseBool: env0.CmpFalseBool}
